@@ -6,6 +6,7 @@ import (
 	"fmt"
 	"hash/crc32"
 
+	"github.com/RoaringBitmap/roaring"
 	segment "github.com/blugelabs/bluge_segment_api"
 	ice "github.com/blugelabs/ice/v2"
 
@@ -110,6 +111,20 @@ func c11Run(c *runner.Ctx) {
 			mis, _ := sg.S.(*ice.Segment)
 			if ft, _ := parseFooter(sg.Bytes); mis != nil && ft.ChunkMode != sg.Mode {
 				c.Violate("footer-chunkmode:merge-mode", fmt.Sprintf("merge ran with chunk mode %d, footer says %d", sg.Mode, ft.ChunkMode), desc())
+			}
+		}
+		// a merge of this single segment with nothing deleted (what a maintainer might turn into a byte copy)
+		if len(sg.X.Docs) > 0 && c.R.Intn(2) == 0 {
+			var mb bytes.Buffer
+			mn, merr := ice.Merge([]segment.Segment{sg.S}, []*roaring.Bitmap{pickDrop(c.R, nil, roaring.New())}, 0).WriteTo(&mb, nil)
+			if merr == nil && c11CheckFile(c, "Merger.WriteTo(single "+sg.Kind+" input)", mb.Bytes(), mn, desc) {
+				c.Inc("files.merger_single_input."+sg.Kind, 1)
+			}
+			var vb bytes.Buffer
+			if _, vn, verr := ice.VerifMerge([]segment.Segment{sg.S}, []*roaring.Bitmap{nil}, &vb, sg.Mode, nil); verr == nil {
+				if c11CheckFile(c, "merge writer(single "+sg.Kind+" input, same chunk mode)", vb.Bytes(), int64(vn), desc) {
+					c.Inc("files.merger_single_input_same_mode."+sg.Kind, 1)
+				}
 			}
 		}
 		pb, n, err := gen.Persist(sg.S)
